@@ -21,7 +21,7 @@ def _fams(th):
     head = "Connection = %s 'keep-alive', X = %s" % (k, x2)
     mid = "Connection = 'xe' %s 'x-keep' %s, X = 'xE'" % (("b b b", "b") if th else ("b b", "b"))
     reg = "Connection = %s (names the registered end-to-end field Accept or not), X = 'Xe'" % ("b 'cce' b b b" if th else "b 'ccep' b b")
-    name = "Connection = %s, X = %s" % ("'close,xE' b ',k' b" if th else "'close,xE' b", "n n n (not Via)" if th else "n n")
+    name = "Connection = %s, X = %s" % ("'close,xE' b ',k' b" if th else "'close,xE' b", "n n" if th else "n n")
     L3 = ("listed-dropped", "unlisted-kept", "to-origin")
     return [
         _e("c04_req_short", any_ + " | " + two + _req + _b, L3),
@@ -31,7 +31,7 @@ def _fams(th):
            + (", only_if_cached, front_end_https 0..2" if th else "") + " (tunneling => peering and toOrigin; no peer => toOrigin); cache_peer login in {none, PASS, PASSTHRU, "
            "PROXYPASS, user:pw, *:pw} (none without a peer)", ("listed-dropped", "to-origin", "peer-credentials-passed", "peer-no-credentials"), sample_every=5, max_samples=14),
         _e("c04_rep_build", "the real clientReplyContext::buildReplyHeader() on a cache miss being relayed: " + (" | ".join((any_, two, tail)) if th else tail) + _rep +
-           ", Date; reply status 200; request cache_peer login in " + ("{none, PASS, PASSTHRU, PROXYPASS, user:pw}" if th else "{none, PASS, PASSTHRU}") +
+           ", Date; reply status 200; request cache_peer login in " + ("{none, PASS, PASSTHRU, PROXYPASS}" if th else "{none, PASS, PASSTHRU}") +
            ", flags.proxyKeepalive symbolic, client HTTP version in {1.0, 1.1}" + _b, ("listed-dropped", "unlisted-kept", "from-origin", "peer-auth-passed")),
         _e("c04_rep_lists", " | ".join((any_, two, tail, head, mid, reg, name)) + _rep + _b, ("listed-dropped", "unlisted-kept")),
     ]
@@ -72,7 +72,7 @@ SPEC = dict(
            "compat/xstring.cc is the real file with its xstrdup renamed away (xstrdup is an engine model)", "debugs() disabled"],
     assumptions=["'named in a received Connection header' = the field name equals, case-insensitively, an element of the comma-separated value after removing SP/HT around "
                  "it; values containing DQUOTE are outside (Squid's list iterator honours quoted strings, the Connection grammar has none)",
-                 "the extension field's name is not 'Via' (Squid rebuilds Via itself from the received list) -- relevant for 3-byte names only"],
+                 "a symbolic 3-byte extension field name would exclude 'Via' (Squid rebuilds Via itself from the received list); the listed families use at most 2 symbolic name bytes"],
     outside="Connection values and extension names longer than the listed families; more than two Connection fields; registered names that "
             "copyOneHeaderFromClientsideRequestToUpstreamRequest() handles in their own case before the Connection test (Authorization, Host, If-Modified-Since, "
             "If-None-Match, Max-Forwards, Via, Range, If-Range, Request-Range, Content-Length, Front-End-Https, X-Forwarded-For, Cache-Control: listing one of them in "
